@@ -8,6 +8,7 @@ import WpModel.Model.PdfZoom
 import WpModel.Model.ImageCache
 import WpModel.Model.DiskCache
 import WpModel.Model.WriteState
+import WpModel.Model.AttachDates
 
 namespace Wp.Witness.C19
 open Wp Wp.CopyPages Wp.PdfZoom
@@ -83,5 +84,18 @@ theorem diskcache_stale_object :
     lookup (ops.foldl (fun c e => ImageCache.insert c e.1 e.2) []) "k" = some (.bytes (.orig 1)) := by decide
 
 end disk
+
+section attachments
+open Wp.AttachDates
+
+/-- An attachment embedded from a URL (`<link rel=attachment>`, `<a rel=attachment>`: no dates, no file name): the same
+input, the same `SOURCE_DATE_EPOCH`, rendered one second later — the `/CreationDate` and `/ModDate` of the embedded
+file differ, hence the PDF bytes.  (The unrestricted `C19.attachment_dates_reproducible` is therefore false: known
+finding `attachment-dates-from-wall-clock`.) -/
+theorem attachment_dates_follow_the_clock :
+    dates ⟨none, none, none, "D:20260930173740Z", some "1600000000"⟩ ≠
+      dates ⟨none, none, none, "D:20260930173741Z", some "1600000000"⟩ := by decide
+
+end attachments
 
 end Wp.Witness.C19
